@@ -2089,9 +2089,18 @@ class NuclearNorm(Functional):
                     snorm = np.maximum(self.sigma, snorm, out=snorm)
                     sprox = ((1 - eps) - self.sigma / snorm)[..., None] * s
                 elif func.pwisenorm.exponent == np.inf:
-                    snorm = np.sum(np.abs(s), axis=-1)
-                    snorm = np.maximum(self.sigma, snorm, out=snorm)
-                    sprox = ((1 - eps) - self.sigma / snorm)[..., None] * s
+                    # Moreau: the proximal of sigma * max(s) is s minus the
+                    # projection of s onto the l1-ball of radius sigma.
+                    # The singular values are nonnegative and sorted in
+                    # descending order, so the projection is
+                    # max(s - tau, 0) with the threshold tau of [D+2008]
+                    # (see `proj_simplex`), and tau = 0 if s is in the ball.
+                    j = np.arange(1, s.shape[-1] + 1)
+                    avrg = (np.cumsum(s, axis=-1) - (self.sigma - eps)) / j
+                    idx = np.sum(s - avrg >= 0, axis=-1, keepdims=True)
+                    idx = np.maximum(idx, 1) - 1
+                    tau = np.take_along_axis(avrg, idx, axis=-1)
+                    sprox = np.minimum(s, np.maximum(tau, 0))
                 else:
                     raise RuntimeError
 
